@@ -54,7 +54,8 @@ def positional_to_value_shift(net, st, it, pos_mm):
 def inject_blunder(rng, net, tol, factor=None, only=None):
     cands = []
     for st in station_items(net):
-        ndir = sum(1 for it in st["items"] if it["t"] == "direction")
+        P = net["points"]
+        ndir = len({it["to"] for it in st["items"] if it["t"] == "direction" and it["to"] in P and pstate(P[it["to"]])["axy"]})
         dir_blundered = any(it["t"] == "direction" and it.get("blunder") is not None for it in st["items"])
         for k, it in enumerate(st["items"]):
             if it.get("blunder") is not None:
